@@ -342,11 +342,11 @@ def talkpagename_fn(
         prefix = ctx.title[:ofs]
         if prefix not in ctx.NAMESPACE_DATA:
             return ctx.NAMESPACE_DATA["Talk"]["name"] + ":" + ctx.title
-        return (
-            ctx.NAMESPACE_DATA[prefix + " talk"]["name"]
-            + ":"
-            + ctx.title[ofs + 1 :]
+        # A page that already is in a talk namespace is its own talk page
+        talk_ns = ctx.NAMESPACE_DATA.get(
+            prefix + " talk", ctx.NAMESPACE_DATA[prefix]
         )
+        return talk_ns["name"] + ":" + ctx.title[ofs + 1 :]
 
 
 def namespacenumber_fn(
@@ -394,7 +394,10 @@ def talkspace_fn(
     t = expander(args[0]) if args else ctx.title or "ERROR_NAMESPACE"
     for prefix in ctx.NAMESPACE_DATA:
         if t.startswith(prefix + ":"):
-            return ctx.NAMESPACE_DATA[prefix + " talk"]["name"]
+            # A talk namespace is its own talk namespace
+            return ctx.NAMESPACE_DATA.get(
+                prefix + " talk", ctx.NAMESPACE_DATA[prefix]
+            )["name"]
     return ctx.NAMESPACE_DATA["Talk"]["name"]
 
 
